@@ -47,6 +47,18 @@ if beh == "slow_start":
     time.sleep(0.5)
 if beh.startswith("ignore_sigterm"):
     signal.signal(signal.SIGTERM, signal.SIG_IGN)
+if "flood_stderr" in beh or beh == "chatty_stderr":
+    # diagnostics on stderr: a few lines, or as fast as whatever is at the other end takes them
+    import threading
+    def _err():
+        n_ = 0
+        while beh != "chatty_stderr" or n_ < 5:
+            try:
+                sys.stderr.write("diagnostic " + "x" * 1000 + "\n"); sys.stderr.flush()
+            except BaseException:
+                time.sleep(0.05)
+            n_ += 1
+    threading.Thread(target=_err, daemon=True).start()
 out({"jsonrpc": "2.0", "method": "notifications/message", "params": {"level": "info", "data": "ready"}})
 if beh == "ignore_sigterm+flood":
     i = 0
@@ -104,14 +116,14 @@ for line in sys.stdin:
             out({"jsonrpc": "2.0", "id": msg["id"], "result": {"echo": msg.get("method")}})
         except BaseException:
             pass
-if beh == "ignore_sigterm":
+if beh.startswith("ignore_sigterm"):
     while True:
         time.sleep(0.2)
 '''
 
 BEHAVIOURS = ["well_behaved", "exit_at_0", "exit_at_1", "exit_at_2", "exit_at_3", "ignore_sigterm", "never_reads", "flood", "close_stdout", "close_stdin", "slow_start",
               "ignore_sigterm+flood", "ignore_sigterm+never_reads", "flood_requests"]
-SPAWN_FAIL = ["missing_path", "directory", "not_executable"]
+SPAWN_FAIL = ["missing_path", "directory", "not_executable", "exec_format", "empty_executable", "path_through_file", "symlink_loop", "name_too_long", "dangling_symlink", "bad_interpreter"]
 EXITS = ["normal", "exception", "cancel", "move_on_after", "cancel_during_exit", "timeout_during_enter"]
 ENTRIES = ["client", "function", "transport"]  # StdioClient, stdio_client(), StdioTransport
 ENTER_DEADLINES = [0.002, 0.01, 0.03, 0.06, 0.1]  # a timeout around the context that fires while (or just after) the child is being started
@@ -137,6 +149,17 @@ def scratch() -> str:
             fh.write("#!/bin/sh\necho hi\n")
         os.chmod(os.path.join(_SCRATCH, "notexec.txt"), 0o644)
         os.mkdir(os.path.join(_SCRATCH, "adir"))
+        # further commands that cannot be started, each failing with another errno
+        with open(os.path.join(_SCRATCH, "garbage.bin"), "wb") as fb:
+            fb.write(b"\x00\x01\x02 not a program in any known format\n" * 8)  # ENOEXEC
+        open(os.path.join(_SCRATCH, "empty.bin"), "wb").close()  # ENOEXEC
+        with open(os.path.join(_SCRATCH, "badinterp.sh"), "w") as fh:
+            fh.write("#!/no/such/interpreter\necho hi\n")  # ENOENT (of the interpreter)
+        for n_ in ("garbage.bin", "empty.bin", "badinterp.sh"):
+            os.chmod(os.path.join(_SCRATCH, n_), 0o755)
+        os.symlink("loop_b", os.path.join(_SCRATCH, "loop_a"))  # ELOOP
+        os.symlink("loop_a", os.path.join(_SCRATCH, "loop_b"))
+        os.symlink("nowhere", os.path.join(_SCRATCH, "dangling"))  # ENOENT
     return _SCRATCH
 
 
@@ -188,10 +211,13 @@ def run_cell(case: Dict[str, Any]) -> Dict[str, Any]:
     obs: Dict[str, Any] = {"marker": marker, "entered": False, "enter_exc": None, "pid": None, "pending": None, "first": None}
 
     if beh in SPAWN_FAIL:
-        cmd = {"missing_path": os.path.join(d, "no-such-binary"), "directory": os.path.join(d, "adir"), "not_executable": os.path.join(d, "notexec.txt")}[beh]
+        cmd = {"missing_path": os.path.join(d, "no-such-binary"), "directory": os.path.join(d, "adir"), "not_executable": os.path.join(d, "notexec.txt"),
+               "exec_format": os.path.join(d, "garbage.bin"), "empty_executable": os.path.join(d, "empty.bin"), "path_through_file": os.path.join(d, "child.py", "server"),  # ENOTDIR
+               "symlink_loop": os.path.join(d, "loop_a"), "name_too_long": os.path.join(d, "n" * 300), "dangling_symlink": os.path.join(d, "dangling"),
+               "bad_interpreter": os.path.join(d, "badinterp.sh")}[beh]
         params = StdioParameters(command=cmd, args=[marker])
     else:
-        params = StdioParameters(command=sys.executable, args=[os.path.join(d, "child.py"), beh, marker])
+        params = StdioParameters(command=sys.executable, args=[os.path.join(d, "child.py"), beh, marker], env=case.get("env"))
 
     async def main():
         gc.collect()
@@ -346,6 +372,11 @@ def run_cell_guarded(case: Dict[str, Any]) -> Dict[str, Any]:
         code = 0
         try:
             os.close(rfd)
+            if "stderr" in case.get("child", ""):
+                # where the child's stderr is passed through it would land on ours: this cell's process discards it
+                dn = os.open(os.devnull, os.O_WRONLY)
+                os.dup2(dn, 2)
+                os.close(dn)
             obs = run_cell(dict(case, _marker=marker))
             data = _json.dumps(obs, default=repr).encode()
             while data:
@@ -445,11 +476,85 @@ def judge(case: Dict[str, Any], obs: Dict[str, Any]) -> List[Tuple[str, str, str
     return f
 
 
+SPAWN_ERRORS = ["EAGAIN", "ENOMEM", "EMFILE", "ENFILE", "ENOEXEC", "ETXTBSY", "ENOTDIR", "ELOOP", "EIO", "EPERM", "EACCES", "ENOENT", "E2BIG", "ENAMETOOLONG", "EINVAL", "ENOSPC",
+                "ValueError", "RuntimeError", "TypeError"]
+
+
+def check_spawn_error(case: Dict[str, Any]) -> Outcome:
+    """the operating system refuses to start the command (every errno a spawn can fail with; scripted, virtual time):
+    entering the context raises - through the client class, the stdio_client() function and the transport wrapper -
+    and does so within a bounded time"""
+    import errno as _errno
+
+    import anyio
+
+    from chuk_mcp.transports.stdio.parameters import StdioParameters
+
+    from ..vclock import run_virtual
+
+    out = Outcome(nontrivial=True, classes=(f"spawn-error:{case['spawn_error']}", f"entry:{case.get('entry', 'client')}", "scripted"))
+    name = case["spawn_error"]
+    calls = {"n": 0}
+
+    async def refuse(command, **kw):
+        calls["n"] += 1
+        if name in ("ValueError", "RuntimeError", "TypeError"):
+            raise {"ValueError": ValueError, "RuntimeError": RuntimeError, "TypeError": TypeError}[name]("embedded null byte" if name == "ValueError" else "cannot start")
+        no = getattr(_errno, name)
+        raise OSError(no, os.strerror(no), str(command[0]) if isinstance(command, (list, tuple)) else str(command))
+
+    obs: Dict[str, Any] = {"entered": False, "exc": None, "t": None}
+
+    async def main():
+        import asyncio as _a
+
+        params = StdioParameters(command="/opt/server/bin/mcp-server", args=["--stdio"])
+        entry = case.get("entry", "client")
+        if entry == "function":
+            from chuk_mcp.transports.stdio.stdio_client import stdio_client
+
+            client = stdio_client(params)
+        elif entry == "transport":
+            from chuk_mcp.transports.stdio.transport import StdioTransport
+
+            client = StdioTransport(params)
+        else:
+            from chuk_mcp.transports.stdio.stdio_client import StdioClient
+
+            client = StdioClient(params)
+        t0 = _a.get_running_loop().time()
+        try:
+            async with client:
+                obs["entered"] = True
+                obs["t"] = _a.get_running_loop().time() - t0
+        except BaseException as e:  # noqa
+            if obs["t"] is None:
+                obs["t"] = _a.get_running_loop().time() - t0
+            obs["exc"] = f"{type(e).__name__}: {e}"
+
+    orig = anyio.open_process
+    anyio.open_process = refuse  # type: ignore
+    try:
+        run_virtual(main)
+    except Exception as e:  # noqa
+        out.fail("spawn-error-harness-raised", f"{type(e).__name__}: {e}")
+        return out
+    finally:
+        anyio.open_process = orig  # type: ignore
+    if obs["entered"]:
+        out.fail("unstartable-command-entered-the-context", f"{name} via {case.get('entry', 'client')}: open_process refused {calls['n']} time(s), the context was entered all the same after {obs['t']}s")
+    elif obs["t"] is not None and obs["t"] > 60.0:
+        out.fail("unstartable-command-reported-too-late", f"{name}: raised only after {obs['t']}s")
+    return out
+
+
 def check(case: Dict[str, Any]) -> Outcome:
+    if "spawn_error" in case:
+        return check_spawn_error(case)
     out = Outcome()
     beh, exit_path = case["child"], case["exit"]
     out.nontrivial = beh != "well_behaved" or exit_path != "normal"
-    out.classes = (f"child:{beh}", f"exit:{exit_path}", f"moment:{case.get('moment', 'before_first')}", f"entry:{case.get('entry', 'client')}")
+    out.classes = (f"child:{beh}", f"exit:{exit_path}", f"moment:{case.get('moment', 'before_first')}", f"entry:{case.get('entry', 'client')}") + ((("server-env:" + ",".join(f"{k_}={v_}" for k_, v_ in sorted(case["env"].items()))),) if case.get("env") else ())
     obs = run_cell_guarded(case)
     fails = judge(case, obs)
     if not fails:
@@ -499,8 +604,19 @@ def cells(full: bool) -> List[Dict[str, Any]]:
             for en in ENTRIES[1:]:
                 cs.append({"child": "ignore_sigterm", "exit": ex, "moment": "before_first", "entry": en})
                 cs.append({"child": "well_behaved", "exit": ex, "moment": "after_response", "entry": en})
-    for beh in SPAWN_FAIL:
-        cs.append({"child": beh, "exit": "normal", "moment": "before_first"})
+    for k_, beh in enumerate(SPAWN_FAIL):
+        for en in (ENTRIES if full else [ENTRIES[k_ % 3], ENTRIES[(k_ + 1) % 3]]):
+            cs.append({"child": beh, "exit": "normal", "moment": "before_first", "entry": en})
+    # what the child does with its stderr x how the client was told to treat it (LOG_LEVEL / LOGGING_LEVEL in the server's environment)
+    k_ = 0
+    for beh in ("flood_stderr", "ignore_sigterm+flood_stderr", "chatty_stderr"):
+        for env in (None, {"LOG_LEVEL": "ERROR"}, {"LOGGING_LEVEL": "CRITICAL"}, {"LOG_LEVEL": "error", "PATH": "/usr/bin:/bin"}, {"LOG_LEVEL": "DEBUG"}):
+            for ex in (("normal", "exception", "cancel", "move_on_after", "cancel_during_exit") if full else ("normal", "cancel", "exception")):
+                k_ += 1
+                c_ = {"child": beh, "exit": ex, "moment": MOMENTS[k_ % 3], "entry": ENTRIES[k_ % 3]}
+                if env:
+                    c_["env"] = env
+                cs.append(c_)
     # make sure the classic combination is always there
     extra = {"child": "ignore_sigterm", "exit": "cancel", "moment": "before_first"}
     if extra not in cs:
@@ -532,10 +648,18 @@ def job_cells(col: Collector, seed: int, tier: str, shard: int, nshards: int, fu
         cleanup_scratch()
 
 
-JOBS = {"cells": job_cells}
+def job_spawn_errors(col: Collector, seed: int, tier: str) -> None:
+    for name in SPAWN_ERRORS:
+        for en in ENTRIES:
+            case = {"spawn_error": name, "entry": en}
+            col.record(case, check(case))
+    col.exhaustive_parts.append(f"{len(SPAWN_ERRORS)} ways the operating system refuses to start the command x 3 kinds of context (scripted)")
+
+
+JOBS = {"cells": job_cells, "spawn_errors": job_spawn_errors}
 
 
 def jobs(tier: str):
     if tier == "quick":
-        return [("cells", {"shard": s, "nshards": 16, "full": False}) for s in range(16)]
-    return [("cells", {"shard": s, "nshards": 16, "full": True, "jitters": 3}) for s in range(16)]
+        return [("cells", {"shard": s, "nshards": 16, "full": False}) for s in range(16)] + [("spawn_errors", {})]
+    return [("cells", {"shard": s, "nshards": 16, "full": True, "jitters": 3}) for s in range(16)] + [("spawn_errors", {})]
